@@ -23,7 +23,6 @@ theorem mem_zip_padTo {as : List Nat} {l : List (Option Nat)} {n a ll : Nat} (hm
 /-- the own nodes: the cell and everything behind the host's nodes -/
 def ownN (h : NNet) (c : Nat) (x : Nat) : Prop := x = c ∨ h.net.nodes.size ≤ x
 
-set_option maxHeartbeats 1600000 in
 theorem substituteCore_cert (h : NNet) (c : Nat) (m : NNet) (sh : Shape) (dn : Nat)
     (hw : WF h) (mw : WF m) (hc : c < h.net.nodes.size) (hio : c ∉ h.net.io) (hcf : (h.net.node c).isFork = false)
     (hs : implShape m = some sh) (hd : sh.des = some dn)
